@@ -1305,24 +1305,26 @@ func (s *swamp) IncrementUint8(key string, i uint8, condition *IncrementUInt8Con
 	guardID := treasureObj.StartTreasureGuard(true)
 	defer treasureObj.ReleaseTreasureGuard(guardID)
 
+	// Nothing is changed before the condition has been evaluated: a call whose
+	// condition is not met must leave the record - and, for a key that does not
+	// exist yet, the in-flight placeholder - exactly as it found it. A missing
+	// or void record counts as 0.
+	isNew := false
 	switch treasureObj.GetContentType() {
 	case treasure.ContentTypeVoid:
-		treasureObj.SetContentUint8(guardID, 0)
-		if metadataRequestIfNotExist != nil {
-			s.setMetaForIncrement(treasureObj, guardID, metadataRequestIfNotExist)
-		}
+		isNew = true
 	case treasure.ContentTypeUint8:
-		if metadataRequestIfExist != nil {
-			s.setMetaForIncrement(treasureObj, guardID, metadataRequestIfExist)
-		}
 	default:
 		return 0, false, nil, errors.New(ErrorValueIsNotInt)
 	}
 
-	// lekérdezzük a jelenlegi integer értékét a treasure-nek
-	contentInt, err := treasureObj.GetContentUint8()
-	if err != nil {
-		return 0, false, nil, errors.New(ErrorValueIsNotInt)
+	// the current value of the treasure
+	var contentInt uint8
+	if !isNew {
+		contentInt, err = treasureObj.GetContentUint8()
+		if err != nil {
+			return 0, false, nil, errors.New(ErrorValueIsNotInt)
+		}
 	}
 
 	// ellenőrizzük a feltételt, ha van megadva
@@ -1353,6 +1355,15 @@ func (s *swamp) IncrementUint8(key string, i uint8, condition *IncrementUInt8Con
 				return contentInt, false, s.createMetaForIncrementResponse(treasureObj), nil
 			}
 		}
+	}
+
+	// the condition (if any) is met: now initialise a new record / apply the metadata
+	if isNew {
+		if metadataRequestIfNotExist != nil {
+			s.setMetaForIncrement(treasureObj, guardID, metadataRequestIfNotExist)
+		}
+	} else if metadataRequestIfExist != nil {
+		s.setMetaForIncrement(treasureObj, guardID, metadataRequestIfExist)
 	}
 
 	// increment or decrement the value
@@ -1379,24 +1390,26 @@ func (s *swamp) IncrementUint16(key string, i uint16, condition *IncrementUInt16
 	guardID := treasureObj.StartTreasureGuard(true)
 	defer treasureObj.ReleaseTreasureGuard(guardID)
 
+	// Nothing is changed before the condition has been evaluated: a call whose
+	// condition is not met must leave the record - and, for a key that does not
+	// exist yet, the in-flight placeholder - exactly as it found it. A missing
+	// or void record counts as 0.
+	isNew := false
 	switch treasureObj.GetContentType() {
 	case treasure.ContentTypeVoid:
-		treasureObj.SetContentUint16(guardID, 0)
-		if metadataRequestIfNotExist != nil {
-			s.setMetaForIncrement(treasureObj, guardID, metadataRequestIfNotExist)
-		}
+		isNew = true
 	case treasure.ContentTypeUint16:
-		if metadataRequestIfExist != nil {
-			s.setMetaForIncrement(treasureObj, guardID, metadataRequestIfExist)
-		}
 	default:
 		return 0, false, nil, errors.New(ErrorValueIsNotInt)
 	}
 
-	// lekérdezzük a jelenlegi integer értékét a treasure-nek
-	contentInt, err := treasureObj.GetContentUint16()
-	if err != nil {
-		return 0, false, nil, errors.New(ErrorValueIsNotInt)
+	// the current value of the treasure
+	var contentInt uint16
+	if !isNew {
+		contentInt, err = treasureObj.GetContentUint16()
+		if err != nil {
+			return 0, false, nil, errors.New(ErrorValueIsNotInt)
+		}
 	}
 
 	// ellenőrizzük a feltételt, ha van megadva
@@ -1427,6 +1440,15 @@ func (s *swamp) IncrementUint16(key string, i uint16, condition *IncrementUInt16
 				return contentInt, false, s.createMetaForIncrementResponse(treasureObj), nil
 			}
 		}
+	}
+
+	// the condition (if any) is met: now initialise a new record / apply the metadata
+	if isNew {
+		if metadataRequestIfNotExist != nil {
+			s.setMetaForIncrement(treasureObj, guardID, metadataRequestIfNotExist)
+		}
+	} else if metadataRequestIfExist != nil {
+		s.setMetaForIncrement(treasureObj, guardID, metadataRequestIfExist)
 	}
 
 	// increment or decrement the value
@@ -1452,24 +1474,26 @@ func (s *swamp) IncrementUint32(key string, i uint32, condition *IncrementUInt32
 	guardID := treasureObj.StartTreasureGuard(true)
 	defer treasureObj.ReleaseTreasureGuard(guardID)
 
+	// Nothing is changed before the condition has been evaluated: a call whose
+	// condition is not met must leave the record - and, for a key that does not
+	// exist yet, the in-flight placeholder - exactly as it found it. A missing
+	// or void record counts as 0.
+	isNew := false
 	switch treasureObj.GetContentType() {
 	case treasure.ContentTypeVoid:
-		treasureObj.SetContentUint32(guardID, 0)
-		if metadataRequestIfNotExist != nil {
-			s.setMetaForIncrement(treasureObj, guardID, metadataRequestIfNotExist)
-		}
+		isNew = true
 	case treasure.ContentTypeUint32:
-		if metadataRequestIfExist != nil {
-			s.setMetaForIncrement(treasureObj, guardID, metadataRequestIfExist)
-		}
 	default:
 		return 0, false, nil, errors.New(ErrorValueIsNotInt)
 	}
 
-	// lekérdezzük a jelenlegi integer értékét a treasure-nek
-	contentInt, err := treasureObj.GetContentUint32()
-	if err != nil {
-		return 0, false, nil, errors.New(ErrorValueIsNotInt)
+	// the current value of the treasure
+	var contentInt uint32
+	if !isNew {
+		contentInt, err = treasureObj.GetContentUint32()
+		if err != nil {
+			return 0, false, nil, errors.New(ErrorValueIsNotInt)
+		}
 	}
 
 	// ellenőrizzük a feltételt, ha van megadva
@@ -1500,6 +1524,15 @@ func (s *swamp) IncrementUint32(key string, i uint32, condition *IncrementUInt32
 				return contentInt, false, s.createMetaForIncrementResponse(treasureObj), nil
 			}
 		}
+	}
+
+	// the condition (if any) is met: now initialise a new record / apply the metadata
+	if isNew {
+		if metadataRequestIfNotExist != nil {
+			s.setMetaForIncrement(treasureObj, guardID, metadataRequestIfNotExist)
+		}
+	} else if metadataRequestIfExist != nil {
+		s.setMetaForIncrement(treasureObj, guardID, metadataRequestIfExist)
 	}
 
 	// increment or decrement the value
@@ -1524,24 +1557,26 @@ func (s *swamp) IncrementUint64(key string, i uint64, condition *IncrementUInt64
 	guardID := treasureObj.StartTreasureGuard(true)
 	defer treasureObj.ReleaseTreasureGuard(guardID)
 
+	// Nothing is changed before the condition has been evaluated: a call whose
+	// condition is not met must leave the record - and, for a key that does not
+	// exist yet, the in-flight placeholder - exactly as it found it. A missing
+	// or void record counts as 0.
+	isNew := false
 	switch treasureObj.GetContentType() {
 	case treasure.ContentTypeVoid:
-		treasureObj.SetContentUint64(guardID, 0)
-		if metadataRequestIfNotExist != nil {
-			s.setMetaForIncrement(treasureObj, guardID, metadataRequestIfNotExist)
-		}
+		isNew = true
 	case treasure.ContentTypeUint64:
-		if metadataRequestIfExist != nil {
-			s.setMetaForIncrement(treasureObj, guardID, metadataRequestIfExist)
-		}
 	default:
 		return 0, false, nil, errors.New(ErrorValueIsNotInt)
 	}
 
-	// lekérdezzük a jelenlegi integer értékét a treasure-nek
-	contentInt, err := treasureObj.GetContentUint64()
-	if err != nil {
-		return 0, false, nil, errors.New(ErrorValueIsNotInt)
+	// the current value of the treasure
+	var contentInt uint64
+	if !isNew {
+		contentInt, err = treasureObj.GetContentUint64()
+		if err != nil {
+			return 0, false, nil, errors.New(ErrorValueIsNotInt)
+		}
 	}
 
 	// ellenőrizzük a feltételt, ha van megadva
@@ -1572,6 +1607,15 @@ func (s *swamp) IncrementUint64(key string, i uint64, condition *IncrementUInt64
 				return contentInt, false, s.createMetaForIncrementResponse(treasureObj), nil
 			}
 		}
+	}
+
+	// the condition (if any) is met: now initialise a new record / apply the metadata
+	if isNew {
+		if metadataRequestIfNotExist != nil {
+			s.setMetaForIncrement(treasureObj, guardID, metadataRequestIfNotExist)
+		}
+	} else if metadataRequestIfExist != nil {
+		s.setMetaForIncrement(treasureObj, guardID, metadataRequestIfExist)
 	}
 
 	// increment or decrement the value
@@ -1596,24 +1640,26 @@ func (s *swamp) IncrementInt8(key string, i int8, condition *IncrementInt8Condit
 	guardID := treasureObj.StartTreasureGuard(true)
 	defer treasureObj.ReleaseTreasureGuard(guardID)
 
+	// Nothing is changed before the condition has been evaluated: a call whose
+	// condition is not met must leave the record - and, for a key that does not
+	// exist yet, the in-flight placeholder - exactly as it found it. A missing
+	// or void record counts as 0.
+	isNew := false
 	switch treasureObj.GetContentType() {
 	case treasure.ContentTypeVoid:
-		treasureObj.SetContentInt8(guardID, 0)
-		if metadataRequestIfNotExist != nil {
-			s.setMetaForIncrement(treasureObj, guardID, metadataRequestIfNotExist)
-		}
+		isNew = true
 	case treasure.ContentTypeInt8:
-		if metadataRequestIfExist != nil {
-			s.setMetaForIncrement(treasureObj, guardID, metadataRequestIfExist)
-		}
 	default:
 		return 0, false, nil, errors.New(ErrorValueIsNotInt)
 	}
 
-	// lekérdezzük a jelenlegi integer értékét a treasure-nek
-	contentInt, err := treasureObj.GetContentInt8()
-	if err != nil {
-		return 0, false, nil, errors.New(ErrorValueIsNotInt)
+	// the current value of the treasure
+	var contentInt int8
+	if !isNew {
+		contentInt, err = treasureObj.GetContentInt8()
+		if err != nil {
+			return 0, false, nil, errors.New(ErrorValueIsNotInt)
+		}
 	}
 
 	// ellenőrizzük a feltételt, ha van megadva
@@ -1644,6 +1690,15 @@ func (s *swamp) IncrementInt8(key string, i int8, condition *IncrementInt8Condit
 				return contentInt, false, s.createMetaForIncrementResponse(treasureObj), nil
 			}
 		}
+	}
+
+	// the condition (if any) is met: now initialise a new record / apply the metadata
+	if isNew {
+		if metadataRequestIfNotExist != nil {
+			s.setMetaForIncrement(treasureObj, guardID, metadataRequestIfNotExist)
+		}
+	} else if metadataRequestIfExist != nil {
+		s.setMetaForIncrement(treasureObj, guardID, metadataRequestIfExist)
 	}
 
 	// increment or decrement the value
@@ -1668,24 +1723,26 @@ func (s *swamp) IncrementInt16(key string, i int16, condition *IncrementInt16Con
 	guardID := treasureObj.StartTreasureGuard(true)
 	defer treasureObj.ReleaseTreasureGuard(guardID)
 
+	// Nothing is changed before the condition has been evaluated: a call whose
+	// condition is not met must leave the record - and, for a key that does not
+	// exist yet, the in-flight placeholder - exactly as it found it. A missing
+	// or void record counts as 0.
+	isNew := false
 	switch treasureObj.GetContentType() {
 	case treasure.ContentTypeVoid:
-		treasureObj.SetContentInt16(guardID, 0)
-		if metadataRequestIfNotExist != nil {
-			s.setMetaForIncrement(treasureObj, guardID, metadataRequestIfNotExist)
-		}
+		isNew = true
 	case treasure.ContentTypeInt16:
-		if metadataRequestIfExist != nil {
-			s.setMetaForIncrement(treasureObj, guardID, metadataRequestIfExist)
-		}
 	default:
 		return 0, false, nil, errors.New(ErrorValueIsNotInt)
 	}
 
-	// lekérdezzük a jelenlegi integer értékét a treasure-nek
-	contentInt, err := treasureObj.GetContentInt16()
-	if err != nil {
-		return 0, false, nil, errors.New(ErrorValueIsNotInt)
+	// the current value of the treasure
+	var contentInt int16
+	if !isNew {
+		contentInt, err = treasureObj.GetContentInt16()
+		if err != nil {
+			return 0, false, nil, errors.New(ErrorValueIsNotInt)
+		}
 	}
 
 	// ellenőrizzük a feltételt, ha van megadva
@@ -1716,6 +1773,15 @@ func (s *swamp) IncrementInt16(key string, i int16, condition *IncrementInt16Con
 				return contentInt, false, s.createMetaForIncrementResponse(treasureObj), nil
 			}
 		}
+	}
+
+	// the condition (if any) is met: now initialise a new record / apply the metadata
+	if isNew {
+		if metadataRequestIfNotExist != nil {
+			s.setMetaForIncrement(treasureObj, guardID, metadataRequestIfNotExist)
+		}
+	} else if metadataRequestIfExist != nil {
+		s.setMetaForIncrement(treasureObj, guardID, metadataRequestIfExist)
 	}
 
 	// increment or decrement the value
@@ -1740,24 +1806,26 @@ func (s *swamp) IncrementInt32(key string, i int32, condition *IncrementInt32Con
 	guardID := treasureObj.StartTreasureGuard(true)
 	defer treasureObj.ReleaseTreasureGuard(guardID)
 
+	// Nothing is changed before the condition has been evaluated: a call whose
+	// condition is not met must leave the record - and, for a key that does not
+	// exist yet, the in-flight placeholder - exactly as it found it. A missing
+	// or void record counts as 0.
+	isNew := false
 	switch treasureObj.GetContentType() {
 	case treasure.ContentTypeVoid:
-		treasureObj.SetContentInt32(guardID, 0)
-		if metadataRequestIfNotExist != nil {
-			s.setMetaForIncrement(treasureObj, guardID, metadataRequestIfNotExist)
-		}
+		isNew = true
 	case treasure.ContentTypeInt32:
-		if metadataRequestIfExist != nil {
-			s.setMetaForIncrement(treasureObj, guardID, metadataRequestIfExist)
-		}
 	default:
 		return 0, false, nil, errors.New(ErrorValueIsNotInt)
 	}
 
-	// lekérdezzük a jelenlegi integer értékét a treasure-nek
-	contentInt, err := treasureObj.GetContentInt32()
-	if err != nil {
-		return 0, false, nil, errors.New(ErrorValueIsNotInt)
+	// the current value of the treasure
+	var contentInt int32
+	if !isNew {
+		contentInt, err = treasureObj.GetContentInt32()
+		if err != nil {
+			return 0, false, nil, errors.New(ErrorValueIsNotInt)
+		}
 	}
 
 	// ellenőrizzük a feltételt, ha van megadva
@@ -1788,6 +1856,15 @@ func (s *swamp) IncrementInt32(key string, i int32, condition *IncrementInt32Con
 				return contentInt, false, s.createMetaForIncrementResponse(treasureObj), nil
 			}
 		}
+	}
+
+	// the condition (if any) is met: now initialise a new record / apply the metadata
+	if isNew {
+		if metadataRequestIfNotExist != nil {
+			s.setMetaForIncrement(treasureObj, guardID, metadataRequestIfNotExist)
+		}
+	} else if metadataRequestIfExist != nil {
+		s.setMetaForIncrement(treasureObj, guardID, metadataRequestIfExist)
 	}
 
 	// increment or decrement the value
@@ -1813,24 +1890,26 @@ func (s *swamp) IncrementInt64(key string, i int64, condition *IncrementInt64Con
 	guardID := treasureObj.StartTreasureGuard(true)
 	defer treasureObj.ReleaseTreasureGuard(guardID)
 
+	// Nothing is changed before the condition has been evaluated: a call whose
+	// condition is not met must leave the record - and, for a key that does not
+	// exist yet, the in-flight placeholder - exactly as it found it. A missing
+	// or void record counts as 0.
+	isNew := false
 	switch treasureObj.GetContentType() {
 	case treasure.ContentTypeVoid:
-		treasureObj.SetContentInt64(guardID, 0)
-		if metadataRequestIfNotExist != nil {
-			s.setMetaForIncrement(treasureObj, guardID, metadataRequestIfNotExist)
-		}
+		isNew = true
 	case treasure.ContentTypeInt64:
-		if metadataRequestIfExist != nil {
-			s.setMetaForIncrement(treasureObj, guardID, metadataRequestIfExist)
-		}
 	default:
 		return 0, false, nil, errors.New(ErrorValueIsNotInt)
 	}
 
-	// lekérdezzük a jelenlegi integer értékét a treasure-nek
-	contentInt, err := treasureObj.GetContentInt64()
-	if err != nil {
-		return 0, false, nil, errors.New(ErrorValueIsNotInt)
+	// the current value of the treasure
+	var contentInt int64
+	if !isNew {
+		contentInt, err = treasureObj.GetContentInt64()
+		if err != nil {
+			return 0, false, nil, errors.New(ErrorValueIsNotInt)
+		}
 	}
 
 	// ellenőrizzük a feltételt, ha van megadva
@@ -1861,6 +1940,15 @@ func (s *swamp) IncrementInt64(key string, i int64, condition *IncrementInt64Con
 				return contentInt, false, s.createMetaForIncrementResponse(treasureObj), nil
 			}
 		}
+	}
+
+	// the condition (if any) is met: now initialise a new record / apply the metadata
+	if isNew {
+		if metadataRequestIfNotExist != nil {
+			s.setMetaForIncrement(treasureObj, guardID, metadataRequestIfNotExist)
+		}
+	} else if metadataRequestIfExist != nil {
+		s.setMetaForIncrement(treasureObj, guardID, metadataRequestIfExist)
 	}
 
 	// increment or decrement the value
@@ -1897,24 +1985,26 @@ func (s *swamp) IncrementFloat32(key string, f float32, condition *IncrementFloa
 	guardID := treasureObj.StartTreasureGuard(true)
 	defer treasureObj.ReleaseTreasureGuard(guardID)
 
+	// Nothing is changed before the condition has been evaluated: a call whose
+	// condition is not met must leave the record - and, for a key that does not
+	// exist yet, the in-flight placeholder - exactly as it found it. A missing
+	// or void record counts as 0.
+	isNew := false
 	switch treasureObj.GetContentType() {
 	case treasure.ContentTypeVoid:
-		treasureObj.SetContentFloat32(guardID, 0)
-		if metadataRequestIfNotExist != nil {
-			s.setMetaForIncrement(treasureObj, guardID, metadataRequestIfNotExist)
-		}
+		isNew = true
 	case treasure.ContentTypeFloat32:
-		if metadataRequestIfExist != nil {
-			s.setMetaForIncrement(treasureObj, guardID, metadataRequestIfExist)
-		}
 	default:
 		return 0, false, nil, errors.New(ErrorValueIsNotFloat)
 	}
 
-	// get the float value and return an error if it fails
-	contentFloat, err := treasureObj.GetContentFloat32()
-	if err != nil {
-		return 0, false, nil, errors.New(ErrorValueIsNotFloat)
+	// the current value of the treasure
+	var contentFloat float32
+	if !isNew {
+		contentFloat, err = treasureObj.GetContentFloat32()
+		if err != nil {
+			return 0, false, nil, errors.New(ErrorValueIsNotFloat)
+		}
 	}
 
 	// check the condition if provided
@@ -1945,6 +2035,15 @@ func (s *swamp) IncrementFloat32(key string, f float32, condition *IncrementFloa
 				return contentFloat, false, s.createMetaForIncrementResponse(treasureObj), nil
 			}
 		}
+	}
+
+	// the condition (if any) is met: now initialise a new record / apply the metadata
+	if isNew {
+		if metadataRequestIfNotExist != nil {
+			s.setMetaForIncrement(treasureObj, guardID, metadataRequestIfNotExist)
+		}
+	} else if metadataRequestIfExist != nil {
+		s.setMetaForIncrement(treasureObj, guardID, metadataRequestIfExist)
 	}
 
 	// increment or decrement the value
@@ -1972,24 +2071,26 @@ func (s *swamp) IncrementFloat64(key string, f float64, condition *IncrementFloa
 	guardID := treasureObj.StartTreasureGuard(true)
 	defer treasureObj.ReleaseTreasureGuard(guardID)
 
+	// Nothing is changed before the condition has been evaluated: a call whose
+	// condition is not met must leave the record - and, for a key that does not
+	// exist yet, the in-flight placeholder - exactly as it found it. A missing
+	// or void record counts as 0.
+	isNew := false
 	switch treasureObj.GetContentType() {
 	case treasure.ContentTypeVoid:
-		treasureObj.SetContentFloat64(guardID, 0)
-		if metadataRequestIfNotExist != nil {
-			s.setMetaForIncrement(treasureObj, guardID, metadataRequestIfNotExist)
-		}
+		isNew = true
 	case treasure.ContentTypeFloat64:
-		if metadataRequestIfExist != nil {
-			s.setMetaForIncrement(treasureObj, guardID, metadataRequestIfExist)
-		}
 	default:
 		return 0, false, nil, errors.New(ErrorValueIsNotFloat)
 	}
 
-	// get the float value and return an error if it fails
-	contentFloat, err := treasureObj.GetContentFloat64()
-	if err != nil {
-		return 0, false, nil, errors.New(ErrorValueIsNotFloat)
+	// the current value of the treasure
+	var contentFloat float64
+	if !isNew {
+		contentFloat, err = treasureObj.GetContentFloat64()
+		if err != nil {
+			return 0, false, nil, errors.New(ErrorValueIsNotFloat)
+		}
 	}
 
 	// check the condition if provided
@@ -2020,6 +2121,15 @@ func (s *swamp) IncrementFloat64(key string, f float64, condition *IncrementFloa
 				return contentFloat, false, s.createMetaForIncrementResponse(treasureObj), nil
 			}
 		}
+	}
+
+	// the condition (if any) is met: now initialise a new record / apply the metadata
+	if isNew {
+		if metadataRequestIfNotExist != nil {
+			s.setMetaForIncrement(treasureObj, guardID, metadataRequestIfNotExist)
+		}
+	} else if metadataRequestIfExist != nil {
+		s.setMetaForIncrement(treasureObj, guardID, metadataRequestIfExist)
 	}
 
 	// increment or decrement the value
